@@ -282,6 +282,7 @@ static int cmd_kalign(const char* path, int threads, int type, float gpo, float 
                 struct sb in; sb_init(&in);
                 sb_kstr(&in,"tag","in");
                 sb_kint(&in,"h",-1);
+                sb_kint(&in,"null",0);
                 sb_kint(&in,"n",n);
                 sb_key(&in,"names"); sb_str(&in,"[");
                 for(int i = 0; i < n; i++){ if(i) sb_str(&in,","); sb_str(&in,"[]"); }
